@@ -178,3 +178,185 @@ package operator
 //@   loop 2 invariant forall k :: 0 <= k && k < len(cpl.PromoteLearners) ==> promotedV(region, cpl.PromoteLearners[k])
 //@   loop 2 invariant forall k :: 0 <= k && k <= rangeindex ==> demotedV(region, cpl.DemoteVoters[k])
 //@   modifies nothing
+
+// ================= C08: the steps planned by the builder are executable and safe (plain, non-joint planning) ===========
+// The builder simulates the region while it plans: currentPeers (store -> peer) and currentLeaderStoreID. Every exec*
+// function appends its step(s) and applies the step's effect to the simulated state; its precondition is the step's own
+// safety condition relative to that state.
+//@ pure leaderRole(p *metapb.Peer) = p.Role != 1 && p.Role != 3
+//@ pure wfPM(m peersMap) = m != nil && (forall s uint64 :: {in(m, s)} in(m, s) ==> s != 0 && m[s] != nil && allocated(m[s]) && m[s].StoreId == s)
+//@ pure distinctMaps(b *Builder) = b.currentPeers != nil && b.toAdd != nil && b.toRemove != nil && b.toPromote != nil && b.toDemote != nil && b.currentPeers != b.toAdd && b.currentPeers != b.toRemove && b.currentPeers != b.toPromote && b.currentPeers != b.toDemote && b.toAdd != b.toRemove && b.toAdd != b.toPromote && b.toAdd != b.toDemote && b.toRemove != b.toPromote && b.toRemove != b.toDemote && b.toPromote != b.toDemote && b.peerAddStep != nil
+//@ pure bInv(b *Builder) = wfPM(b.currentPeers) && wfPM(b.toAdd) && wfPM(b.toRemove) && wfPM(b.toPromote) && wfPM(b.toDemote) && distinctMaps(b)
+// A plan is executable: what it adds goes to a FREE store, what it removes or demotes is never the leader chosen for
+// that moment, and every leader it names is (or is about to become) a voter of the region that may lead.
+//@ pure partsOK(b *Builder, p stepPlan) = (p.add != nil ==> allocated(p.add) && in(b.toAdd, p.add.StoreId) && b.toAdd[p.add.StoreId] == p.add && !in(b.currentPeers, p.add.StoreId)) && (p.remove != nil ==> allocated(p.remove) && in(b.toRemove, p.remove.StoreId) && b.toRemove[p.remove.StoreId] == p.remove) && (p.demote != nil ==> allocated(p.demote) && in(b.toDemote, p.demote.StoreId) && b.toDemote[p.demote.StoreId] == p.demote) && (p.promote != nil ==> allocated(p.promote) && in(b.toPromote, p.promote.StoreId) && b.toPromote[p.promote.StoreId] == p.promote)
+//@ pure lbaOK(b *Builder, p stepPlan) = p.leaderBeforeAdd != 0 ==> in(b.currentPeers, p.leaderBeforeAdd) && leaderRole(b.currentPeers[p.leaderBeforeAdd])
+//@ pure lbrOK(b *Builder, p stepPlan) = (p.remove != nil ==> p.leaderBeforeRemove != 0 && p.leaderBeforeRemove != p.remove.StoreId) && (p.demote != nil ==> p.leaderBeforeRemove != 0 && p.leaderBeforeRemove != p.demote.StoreId) && (p.leaderBeforeRemove != 0 ==> (in(b.currentPeers, p.leaderBeforeRemove) && leaderRole(b.currentPeers[p.leaderBeforeRemove])) || (p.promote != nil && p.leaderBeforeRemove == p.promote.StoreId && leaderRole(p.promote)) || (p.add != nil && p.leaderBeforeRemove == p.add.StoreId && leaderRole(p.add)))
+//@ pure planOK(b *Builder, p stepPlan) = partsOK(b, p) && lbaOK(b, p) && lbrOK(b, p)
+
+// Trusted: IDs lists keys of the map; comparePlan returns one of its two arguments (the preference functions are pure).
+//@ func (peersMap).IDs
+//@   assumed
+//@   ensures forall i :: {result[i]} 0 <= i && i < len(result) ==> in(pm, result[i])
+//@   modifies nothing
+//@ func (*Builder).comparePlan
+//@   assumed
+//@   ensures [one-of-the-two] result == best || result == next
+//@   modifies nothing
+//@ func (*Builder).allowLeader
+//@   props C08
+//@   option pureparams
+//@   requires b != nil && b.cluster != nil && peer != nil
+//@   ensures [never-a-learner-or-demoting-voter] result ==> leaderRole(peer)
+//@   modifies ghost evres
+//@ opaque github.com/tikv/pd/server/schedule/placement::MatchLabelConstraints
+
+//@ func (*Builder).execTransferLeader
+//@   props C08
+//@   requires [target-is-a-voter-of-the-region] b != nil && in(b.currentPeers, id) && b.currentPeers[id] != nil && leaderRole(b.currentPeers[id])
+//@   ensures b.currentLeaderStoreID == id
+//@   modifies b.steps, b.currentLeaderStoreID
+//@ func (*Builder).execAddPeer
+//@   props C08
+//@   requires [store-is-free] b != nil && distinctMaps(b) && peer != nil && !in(b.currentPeers, peer.StoreId)
+//@   ensures [simulated] in(b.currentPeers, peer.StoreId) && b.currentPeers[peer.StoreId] == peer && (forall s uint64 :: {in(b.currentPeers, s)} s != peer.StoreId ==> in(b.currentPeers, s) == old(in(b.currentPeers, s)) && b.currentPeers[s] == old(b.currentPeers[s])) && (forall s uint64 :: {in(b.toAdd, s)} in(b.toAdd, s) == (old(in(b.toAdd, s)) && s != peer.StoreId)) && (forall s uint64 :: {b.toAdd[s]} in(b.toAdd, s) ==> b.toAdd[s] == old(b.toAdd[s]))
+//@   modifies b.steps, b.currentPeers[*], b.toAdd[*], b.peerAddStep[*]
+//@ func (*Builder).execPromoteLearner
+//@   props C08
+//@   requires b != nil && distinctMaps(b) && peer != nil
+//@   ensures [simulated] in(b.currentPeers, peer.StoreId) && b.currentPeers[peer.StoreId] == peer && (forall s uint64 :: {in(b.currentPeers, s)} s != peer.StoreId ==> in(b.currentPeers, s) == old(in(b.currentPeers, s)) && b.currentPeers[s] == old(b.currentPeers[s])) && (forall s uint64 :: {in(b.toPromote, s)} in(b.toPromote, s) == (old(in(b.toPromote, s)) && s != peer.StoreId)) && (forall s uint64 :: {b.toPromote[s]} in(b.toPromote, s) ==> b.toPromote[s] == old(b.toPromote[s]))
+//@   modifies b.steps, b.currentPeers[*], b.toPromote[*]
+//@ func (*Builder).execDemoteFollower
+//@   props C08
+//@   requires [not-the-leader] b != nil && distinctMaps(b) && peer != nil && peer.StoreId != b.currentLeaderStoreID
+//@   ensures [simulated] in(b.currentPeers, peer.StoreId) && b.currentPeers[peer.StoreId] == peer && (forall s uint64 :: {in(b.currentPeers, s)} s != peer.StoreId ==> in(b.currentPeers, s) == old(in(b.currentPeers, s)) && b.currentPeers[s] == old(b.currentPeers[s])) && (forall s uint64 :: {in(b.toDemote, s)} in(b.toDemote, s) == (old(in(b.toDemote, s)) && s != peer.StoreId)) && (forall s uint64 :: {b.toDemote[s]} in(b.toDemote, s) ==> b.toDemote[s] == old(b.toDemote[s]))
+//@   modifies b.steps, b.currentPeers[*], b.toDemote[*]
+//@ func (*Builder).execRemovePeer
+//@   props C08
+//@   requires [not-the-leader] b != nil && distinctMaps(b) && peer != nil && peer.StoreId != b.currentLeaderStoreID
+//@   ensures [simulated] (forall s uint64 :: {in(b.currentPeers, s)} in(b.currentPeers, s) == (old(in(b.currentPeers, s)) && s != peer.StoreId)) && (forall s uint64 :: {b.currentPeers[s]} in(b.currentPeers, s) ==> b.currentPeers[s] == old(b.currentPeers[s])) && (forall s uint64 :: {in(b.toRemove, s)} in(b.toRemove, s) == (old(in(b.toRemove, s)) && s != peer.StoreId)) && (forall s uint64 :: {b.toRemove[s]} in(b.toRemove, s) ==> b.toRemove[s] == old(b.toRemove[s]))
+//@   modifies b.steps, b.currentPeers[*], b.toRemove[*]
+
+// planReplaceLeaders tries every legal pair of leaders around a replace plan whose add/remove/promote/demote parts
+// are fixed; whatever it returns is executable.
+//@ func (*Builder).planReplaceLeaders
+//@   props C08
+//@   requires b != nil && b.cluster != nil && bInv(b) && planOK(b, best) && partsOK(b, next)
+//@   ensures [executable] partsOK(b, result) && lbaOK(b, result) && lbrOK(b, result)
+//@   loop 1 invariant planOK(b, best) && partsOK(b, next) && next.add == old(next.add) && next.remove == old(next.remove) && next.promote == old(next.promote) && next.demote == old(next.demote)
+//@   loop 2 invariant planOK(b, best) && partsOK(b, next) && next.add == old(next.add) && next.remove == old(next.remove) && next.promote == old(next.promote) && next.demote == old(next.demote) && lbaOK(b, next) && next.leaderBeforeAdd != 0
+//@   modifies ghost evres
+
+// planReplace and the single-change plans: every plan handed back is executable (in particular whatever is added goes
+// to a store that is free in the simulated state, and add and remove never name the same store).
+//@ func (*Builder).planReplace
+//@   props C08
+//@   requires b != nil && b.cluster != nil && bInv(b)
+//@   ensures [executable] planOK(b, result)
+//@   loop 1 invariant planOK(b, best)
+//@   loop 2 invariant planOK(b, best)
+//@   loop 3 invariant planOK(b, best)
+//@   loop 4 invariant planOK(b, best)
+//@   loop 5 invariant planOK(b, best)
+//@   loop 6 invariant planOK(b, best)
+//@   loop 7 invariant planOK(b, best)
+//@   loop 8 invariant planOK(b, best)
+//@   loop 9 invariant planOK(b, best)
+//@   loop 10 invariant planOK(b, best)
+//@   modifies ghost evres
+//@ func (*Builder).planPromotePeer
+//@   props C08
+//@   requires b != nil && bInv(b)
+//@   ensures [executable] planOK(b, result)
+//@   modifies nothing
+//@ func (*Builder).planDemotePeer
+//@   props C08
+//@   requires b != nil && b.cluster != nil && bInv(b)
+//@   ensures [executable] planOK(b, result)
+//@   loop 1 invariant planOK(b, best)
+//@   loop 2 invariant planOK(b, best)
+//@   modifies ghost evres
+//@ func (*Builder).planRemovePeer
+//@   props C08
+//@   requires b != nil && b.cluster != nil && bInv(b)
+//@   ensures [executable] planOK(b, result)
+//@   loop 1 invariant planOK(b, best)
+//@   loop 2 invariant planOK(b, best)
+//@   modifies ghost evres
+//@ func (*Builder).planAddPeer
+//@   props C08
+//@   requires b != nil && b.cluster != nil && bInv(b)
+//@   ensures [executable] planOK(b, result)
+//@   loop 1 invariant planOK(b, best)
+//@   loop 2 invariant planOK(b, best)
+//@   modifies ghost evres
+//@ func (*Builder).peerPlan
+//@   props C08
+//@   requires b != nil && b.cluster != nil && bInv(b)
+//@   ensures [executable] planOK(b, result)
+//@   modifies ghost evres
+
+// What is still to do agrees with the requested placement, and every peer that is not the subject of a pending change
+// already has its requested role (established by prepareBuild - assumed, see below - and kept by every exec step).
+//@ pure pendingRole(m peersMap, t peersMap) = forall s uint64 :: {in(m, s)} in(m, s) ==> in(t, s) && t[s] != nil && m[s].Role == t[s].Role
+//@ pure settled(b *Builder) = b.targetPeers != nil && pendingRole(b.toAdd, b.targetPeers) && pendingRole(b.toPromote, b.targetPeers) && pendingRole(b.toDemote, b.targetPeers) && (forall s uint64 :: {in(b.currentPeers, s)} in(b.currentPeers, s) && !in(b.toAdd, s) && !in(b.toRemove, s) && !in(b.toPromote, s) && !in(b.toDemote, s) ==> in(b.targetPeers, s) && b.targetPeers[s] != nil && b.currentPeers[s].Role == b.targetPeers[s].Role)
+// A store with a pending promotion still holds its learner (so it is not yet a leader candidate) and is not scheduled for
+// removal; what a pending demotion installs is a learner.
+//@ pure promoteOK(b *Builder) = (forall s uint64 :: {in(b.toPromote, s)} in(b.toPromote, s) ==> in(b.currentPeers, s) && b.currentPeers[s].Role == 1 && !in(b.toRemove, s)) && (forall s uint64 :: {in(b.toDemote, s)} in(b.toDemote, s) ==> b.toDemote[s].Role == 1)
+
+// setTargetLeaderIfNotExist only ever picks a peer of the requested placement that may lead.
+//@ func (*Builder).setTargetLeaderIfNotExist
+//@   props C08
+//@   option pureparams
+//@   requires b != nil && b.cluster != nil && wfPM(b.targetPeers)
+//@   ensures [a-requested-voter] old(b.targetLeaderStoreID) == 0 && b.targetLeaderStoreID != 0 ==> in(b.targetPeers, b.targetLeaderStoreID) && leaderRole(b.targetPeers[b.targetLeaderStoreID])
+//@   ensures [kept-when-given] old(b.targetLeaderStoreID) != 0 ==> b.targetLeaderStoreID == old(b.targetLeaderStoreID)
+//@   loop 1 invariant b.targetLeaderStoreID != 0 ==> in(b.targetPeers, b.targetLeaderStoreID) && leaderRole(b.targetPeers[b.targetLeaderStoreID])
+//@   loop 2 invariant b.targetLeaderStoreID != 0 ==> in(b.targetPeers, b.targetLeaderStoreID) && leaderRole(b.targetPeers[b.targetLeaderStoreID])
+//@   modifies b.targetLeaderStoreID, ghost evres
+
+// The planning loop without joint consensus: every step is issued when its own precondition holds in the simulated
+// region - an add goes to a free store, a removal or demotion never hits the leader of that moment, leadership only
+// goes to a peer that is (by then) a voter allowed to lead - and the final leader transfer goes to a requested voter.
+//@ func (*Builder).buildStepsWithoutJointConsensus
+//@   props C08
+//@   requires b != nil && b.cluster != nil && bInv(b) && settled(b) && promoteOK(b) && wfPM(b.targetPeers) && b.targetPeers != b.currentPeers && b.targetPeers != b.toAdd && b.targetPeers != b.toRemove && b.targetPeers != b.toPromote && b.targetPeers != b.toDemote && (b.targetLeaderStoreID != 0 ==> in(b.targetPeers, b.targetLeaderStoreID) && leaderRole(b.targetPeers[b.targetLeaderStoreID]))
+//@   loop 1 invariant bInv(b) && settled(b) && promoteOK(b) && wfPM(b.targetPeers) && b.targetPeers != b.currentPeers && b.targetPeers != b.toAdd && b.targetPeers != b.toRemove && b.targetPeers != b.toPromote && b.targetPeers != b.toDemote && b.cluster != nil && (b.targetLeaderStoreID != 0 ==> in(b.targetPeers, b.targetLeaderStoreID) && leaderRole(b.targetPeers[b.targetLeaderStoreID]))
+//@   at setTargetLeaderIfNotExist 1 assert [nothing-pending] forall s uint64 :: {in(b.currentPeers, s)} !in(b.toAdd, s) && !in(b.toRemove, s) && !in(b.toPromote, s) && !in(b.toDemote, s)
+//@   at setTargetLeaderIfNotExist 1 after assert [target-leader-is-a-requested-voter] b.targetLeaderStoreID != 0 ==> in(b.targetPeers, b.targetLeaderStoreID) && leaderRole(b.targetPeers[b.targetLeaderStoreID])
+//@   at setTargetLeaderIfNotExist 1 after assert [every-peer-has-its-requested-role] forall s uint64 :: {in(b.currentPeers, s)} in(b.currentPeers, s) ==> in(b.targetPeers, s) && b.currentPeers[s].Role == b.targetPeers[s].Role
+//@   loop 1 modifies b.steps, b.currentLeaderStoreID, b.currentPeers[*], b.toAdd[*], b.toRemove[*], b.toPromote[*], b.toDemote[*], b.peerAddStep[*], b.stepPlanPreferFuncs, ghost evres
+//@   modifies *
+
+// prepareBuild (the diff of origin and requested placement) establishes the part of the step loop's precondition that
+// is a statement about what was put INTO the work maps: each is well-formed and a distinct fresh map, a pending
+// promotion sits on a store whose origin peer is a learner and that is not also scheduled for removal, a pending
+// demotion installs a learner, and whatever is added/promoted/demoted carries the role the request asks for on that
+// store.  (`settled`'s last clause - every origin peer that is NOT in a work map already has its requested role - is
+// a statement about all keys the map ranges visited; the engine has no visited-set ghost for map ranges, so that
+// clause stays a precondition of the step loop and is listed as an assumption.)
+//@ func (peersMap).Copy
+//@   assumed
+//@   ensures result != nil && !old(allocated(result)) && (forall s uint64 :: {in(result, s)} in(result, s) == in(pm, s)) && (forall s uint64 :: {result[s]} result[s] == pm[s])
+//@   modifies nothing
+//@ func (*Builder).brief
+//@   assumed
+//@   modifies nothing
+//@ pure removeSrc(b *Builder) = forall s uint64 :: {in(b.toRemove, s)} in(b.toRemove, s) ==> in(b.originPeers, s) && (!in(b.targetPeers, s) || b.originPeers[s].Role != 1)
+//@ pure promoteSrc(b *Builder) = forall s uint64 :: {in(b.toPromote, s)} in(b.toPromote, s) ==> in(b.originPeers, s) && in(b.targetPeers, s) && b.originPeers[s].Role == 1
+//@ pure demoteSrc(b *Builder) = forall s uint64 :: {in(b.toDemote, s)} in(b.toDemote, s) ==> b.toDemote[s].Role == 1
+//@ pure workMaps(b *Builder) = wfPM(b.toAdd) && wfPM(b.toRemove) && wfPM(b.toPromote) && wfPM(b.toDemote) && removeSrc(b) && promoteSrc(b) && demoteSrc(b) && pendingRole(b.toAdd, b.targetPeers) && pendingRole(b.toPromote, b.targetPeers) && pendingRole(b.toDemote, b.targetPeers)
+//@ pure freshMaps(b *Builder) = b.toAdd != b.toRemove && b.toAdd != b.toPromote && b.toAdd != b.toDemote && b.toRemove != b.toPromote && b.toRemove != b.toDemote && b.toPromote != b.toDemote && b.originPeers != b.toAdd && b.originPeers != b.toRemove && b.originPeers != b.toPromote && b.originPeers != b.toDemote && b.targetPeers != b.toAdd && b.targetPeers != b.toRemove && b.targetPeers != b.toPromote && b.targetPeers != b.toDemote
+//@ func (*Builder).prepareBuild
+//@   props C08
+//@   requires b != nil && b.cluster != nil && wfPM(b.originPeers) && wfPM(b.targetPeers) && allocated(b.originPeers) && allocated(b.targetPeers)
+//@   ensures [work-maps-well-formed-and-distinct] r1 == nil ==> bInv(b) && wfPM(b.targetPeers) && b.targetPeers != b.currentPeers && b.targetPeers != b.toAdd && b.targetPeers != b.toRemove && b.targetPeers != b.toPromote && b.targetPeers != b.toDemote
+//@   ensures [pending-changes-carry-the-requested-role] r1 == nil ==> pendingRole(b.toAdd, b.targetPeers) && pendingRole(b.toPromote, b.targetPeers) && pendingRole(b.toDemote, b.targetPeers)
+//@   ensures [promotions-sit-on-learners] r1 == nil ==> promoteOK(b)
+//@   ensures [target-leader-may-lead] r1 == nil ==> (b.targetLeaderStoreID != 0 ==> in(b.targetPeers, b.targetLeaderStoreID) && leaderRole(b.targetPeers[b.targetLeaderStoreID]))
+//@   loop 1 invariant workMaps(b) && freshMaps(b) && wfPM(b.originPeers) && wfPM(b.targetPeers)
+//@   loop 2 invariant workMaps(b) && freshMaps(b) && wfPM(b.originPeers) && wfPM(b.targetPeers)
+//@   loop 2 modifies b.toRemove[*], b.toPromote[*], b.toDemote[*]
+//@   loop 3 invariant workMaps(b) && freshMaps(b) && wfPM(b.originPeers) && wfPM(b.targetPeers)
+//@   loop 3 modifies b.toAdd[*], ghost evres, ghost evcount
+//@   modifies *
